@@ -39,10 +39,12 @@ def _u32(buf, byte_off):
     return struct.unpack_from("<I", buf, byte_off)[0]
 
 
-def decode(buf, shape, block_size, dtype):
+def decode(buf, shape, block_size, dtype, only=None):
     """Decode `buf` into an array of `shape` (C, Z, Y, X).  Raises SpecError
     if the data is not well formed.  Reads only what a conforming reader needs
-    (voxels inside the volume)."""
+    (voxels inside the volume).  `only`: set of flat block indices
+    (x + gx*(y + gy*z)) to decode in every channel - the other blocks stay 0
+    (for very large chunks, where this pure-Python reader samples)."""
     buf = bytes(buf)
     C, Z, Y, X = shape
     bx, by, bz = block_size
@@ -59,6 +61,9 @@ def decode(buf, shape, block_size, dtype):
         for gzi in range(gz):
             for gyi in range(gy):
                 for gxi in range(gx):
+                    if only is not None and (
+                            gxi + gx * (gyi + gy * gzi)) not in only:
+                        continue
                     h = base + 8 * (gxi + gx * (gyi + gy * gzi))
                     w0 = _u32(buf, h)
                     w1 = _u32(buf, h + 4)
@@ -89,6 +94,42 @@ def decode(buf, shape, block_size, dtype):
                                     cache[idx] = v
                                 out[c, gzi * bz + z, gyi * by + y,
                                     gxi * bx + x] = v
+    return out
+
+
+def decode_corner(buf, shape, block_size, dtype, flat_block, n, channel=0):
+    """The n x n x n voxels at the origin of block `flat_block` of `channel`
+    (for chunks too large to decode completely in pure Python)."""
+    buf = bytes(buf)
+    C, Z, Y, X = shape
+    bx, by, bz = block_size
+    words = 2 if np.dtype(dtype).itemsize == 8 else 1
+    base = 4 * _u32(buf, 4 * channel)
+    h = base + 8 * flat_block
+    w0 = _u32(buf, h)
+    w1 = _u32(buf, h + 4)
+    bits = w0 >> 24
+    if bits not in VALID_BITS:
+        raise SpecError("block %d: encoded_bits=%d" % (flat_block, bits))
+    toff = base + 4 * (w0 & 0xFFFFFF)
+    voff = base + 4 * w1
+    per_word = 32 // bits if bits else 0
+    mask = (1 << bits) - 1
+    out = np.zeros((n, n, n), dtype=np.dtype(dtype))
+    for z in range(n):
+        for y in range(n):
+            for x in range(n):
+                if bits == 0:
+                    idx = 0
+                else:
+                    i = x + bx * (y + by * z)
+                    w = _u32(buf, voff + 4 * (i // per_word))
+                    idx = (w >> ((i % per_word) * bits)) & mask
+                a = toff + 4 * words * idx
+                v = _u32(buf, a)
+                if words == 2:
+                    v |= _u32(buf, a + 4) << 32
+                out[z, y, x] = v
     return out
 
 
